@@ -116,4 +116,28 @@ CHECKS = {
              "checks": ["c03-acks", "c03-raw-peer"]},
         ],
     },
+    "C12": {
+        "level": "exploration",
+        "groups": [
+            {"name": "c12", "run": "^TestC12_", "shards": {"quick": 16, "thorough": 16},
+             "timeout": {"quick": 900, "thorough": 3000},
+             "checks": ["c12-namespace-chain", "c12-event-chain"]},
+        ],
+    },
+    "C05": {
+        "level": "exploration",
+        "groups": [
+            {"name": "c05", "run": "^TestC05_", "shards": {"quick": 16, "thorough": 16},
+             "timeout": {"quick": 900, "thorough": 3000},
+             "checks": ["c05-isolation", "c05-raw-peer"]},
+        ],
+    },
+    "C07": {
+        "level": "exploration",
+        "groups": [
+            {"name": "c07", "run": "^TestC07_", "shards": {"quick": 16, "thorough": 16},
+             "timeout": {"quick": 900, "thorough": 3000},
+             "checks": ["c07-upgrade"]},
+        ],
+    },
 }
